@@ -1,3 +1,5 @@
+import os, json, subprocess, hashlib
+
 KNOWN_TAGS = {
     "prop:known:payments_with_source_reverse_drops_empty_external_id":
         "C13: reverse key paging of payments-with-source drops the empty-external-id payment",
@@ -21,14 +23,56 @@ def fingerprint(case, tags):
 PROP = {
     "go_test": "TestC13",
     "claimed": True,
-    "level_text": "Kernel-checked theorems (closed under the global context) over byte-level models of the exchange store keys (keys.go), of the commitment / market-id part of the store and of the pagination routines. For ALL joint histories of order (create / cancel / set-external-id / settlement incl. partial fill), payment (create / accept-reject / cancel / retarget), commitment (commit / release / settle-commitments) and market operations (create with automatic or explicit id, foreign account on a market address, accepting-commitments switch, closure, which acts on orders and commitments at once; C13_joint_histories) shorter than 2^64-1 operations: every open order is listed exactly once (ascending ids) in its market, owner, asset and all-orders lookups and under its external id, nothing else is listed, index type bytes equal the order type, order ids strictly increase, external ids are unique per market, payments are unique per (source, external id) and listed only under their current target; the ids of successfully created markets are pairwise different, a creation never lands on an id that already identifies a market, nextMarketID returns the smallest unused id above the counter and terminates; GetMarketCommitments / GetAllCommitments / GetAccountCommitments list exactly the non-zero entries of the commitment store (= GetCommitment), each (market, account) once, with valid amounts in existing markets. Pagination: for every strictly sorted prefix store, hit test with non-empty hit keys, limit >= 1, direction and after-order bound, following next_key and paging by offsets both return each matching entry exactly once in order and count_total is their number, for filteredPaginateAfterOrder (market / owner / asset listings of every reachable state), for the SDK's query.FilteredPaginate (GetAllOrders of every reachable state) and for query.Paginate (all-payments, payments-with-target, all-commitments and market-commitments listings of every reachable state in both directions; payments-with-source in the forward direction); with limit = 2^64-1 filteredPaginateAfterOrder returns everything left after the offset in ONE page for every filter, direction, bound and offset (clamp of commit 9f0ea4287). Refuted by witness: reverse key paging of payments-by-source drops the payment with the empty external id (known finding), and three pre-fix codes (reverts of c4d7ece23 / cd8a0fb50 / 9f0ea4287). Each run executes joint histories through the real message router (markets are created inside the histories by MsgGovCreateMarket) and compares, after every step, all listing endpoints of the real gRPC query server (ten order / payment ones, GetAllMarkets / GetMarket, the four commitment lookups) with each other, with GetOrder / GetPayment / GetCommitment and with the model, and replays paging sessions (after EVERY step in a third of the histories; limits 1..n+1, key and offset mode, both directions, type and after-order filters incl. 0, a middle id, the max id and 2^64-1, limit 0 and 2^64-1 with after bounds and count_total; at every checkpoint reverse key-mode sessions with small pages whose after bound is an id INSIDE the endpoint's own listing, with and without type filter) evaluated inside Coq; a well-formed creation or external-id change asking for an external id that no open order of the market carries must be accepted.",
-    "level_note": "Trusted: Coq kernel + vm_compute; the hand transcriptions Exchange/KV.v, Exchange/Index.v, Exchange/Paging.v, Exchange/Commit.v (order / payment / commitment VALUES are structured, not protobuf bytes or coin strings; the SDK store / prefix-store / iterator semantics and query.Paginate / FilteredPaginate are modelled; the commitment and market-id keys are modelled as a second store next to the order / payment store because their type bytes differ; GetMarketAddress is assumed collision free; which market ids have an account is a set); the Go harness' projection (order = type, market, owner, asset denom+amount, external id; payment = source, external id, target, bbb amount; commitment = market, account, coins; market = id + the name tag given at creation; listed orders are compared with GetOrder by protobuf bytes in Go). No axioms. Funds, holds, fees, permissions and the bank transfers of commitment settlements are not modelled here; account removal (keeper API only) is outside the market-id theorem.",
+    "level_text": "Kernel-checked theorems (closed under the global context) over byte-level models of the exchange store keys (keys.go), of the commitment / market-id part of the store and of the pagination routines. For ALL joint histories of order (create / cancel / set-external-id / settlement incl. partial fill), payment (create / accept-reject / cancel / retarget), commitment (commit / release / settle-commitments) and market operations (create with automatic or explicit id, foreign account on a market address, accepting-commitments switch, closure, which acts on orders and commitments at once; C13_joint_histories) shorter than 2^64-1 operations: every open order is listed exactly once (ascending ids) in its market, owner, asset and all-orders lookups and under its external id, nothing else is listed, index type bytes equal the order type, order ids strictly increase, external ids are unique per market, payments are unique per (source, external id) and listed only under their current target; the ids of successfully created markets are pairwise different, a creation never lands on an id that already identifies a market, nextMarketID returns the smallest unused id above the counter and terminates; GetMarketCommitments / GetAllCommitments / GetAccountCommitments list exactly the non-zero entries of the commitment store (= GetCommitment), each (market, account) once, with valid amounts in existing markets. Pagination: for every strictly sorted prefix store, hit test with non-empty hit keys, limit >= 1, direction and after-order bound, following next_key and paging by offsets both return each matching entry exactly once in order and count_total is their number, for filteredPaginateAfterOrder (market / owner / asset listings of every reachable state), for the SDK's query.FilteredPaginate (GetAllOrders of every reachable state) and for query.Paginate (all-payments, payments-with-target, all-commitments and market-commitments listings of every reachable state in both directions; payments-with-source in the forward direction); with limit = 2^64-1 filteredPaginateAfterOrder returns everything left after the offset in ONE page for every filter, direction, bound and offset (clamp of commit 9f0ea4287). Refuted by witness: reverse key paging of payments-by-source drops the payment with the empty external id (known finding), and three pre-fix codes (reverts of c4d7ece23 / cd8a0fb50 / 9f0ea4287). Each run executes joint histories through the real message router (markets are created inside the histories by MsgGovCreateMarket) and compares, after every step, all listing endpoints of the real gRPC query server (ten order / payment ones, GetAllMarkets / GetMarket, the four commitment lookups) with each other, with GetOrder / GetPayment / GetCommitment and with the model, and replays paging sessions (after EVERY step in a third of the histories; limits 1..n+1, key and offset mode, both directions, type and after-order filters incl. 0, a middle id, the max id and 2^64-1, limit 0 and 2^64-1 with after bounds and count_total; at every checkpoint reverse key-mode sessions with small pages whose after bound is an id INSIDE the endpoint's own listing, with and without type filter) evaluated inside Coq; a well-formed creation or external-id change asking for an external id that no open order of the market carries must be accepted. Deepening round 2: accounts are BYTES and payment records carry the bech32 SPELLING (lower / upper case) of their Source and Target strings, so the histories contain creations, acceptances, rejections, cancellations and target changes in either spelling (the code decides 'target changed' on strings and builds index keys from bytes): C13_payments holds for all of them, C13_respelled_target_stays_listed proves the re-spelling step after any history and C13_reordered_index_write_refuted shows that swapping the two index writes of setPaymentInStore loses the entry; order denoms obey this chain's denom regex (denom_ok: a letter then 2..127 letters, digits, '/', '-', '.'; case sensitive) and the generators use upper-case, punctuated, case-twin, prefix-sibling and 128-character denoms for assets, prices and commitments in every index and listing endpoint; GetAllMarkets is paged like the other listings and C13_paging_complete_markets proves it complete for every reachable state; the SDK paginators with limit 2^64-1 have theorems (query.Paginate: one page with everything for every store; query.FilteredPaginate: the same when every entry is a hit, which holds for GetAllMarkets and GetAllOrders of every reachable state, refuted for arbitrary hit tests; offset >= 1 with the maximum limit returns an empty page, a remark); InitGenesis of the module is modelled (Exchange/GenesisImport.v) and each run imports random genesis states (order ids with gaps and out of order, special denoms, both address spellings, commitments in several entries, malformed ones) through GenesisState.Validate + Keeper.InitGenesis and runs the same history checker, listings and paging sessions from the imported state; the key prefixes of keys.go are enumerated by a translator on every run and C13_key_prefixes_covered requires each to be modelled or listed as out of scope with a reason.",
+    "level_note": "Trusted: Coq kernel + vm_compute; the hand transcriptions Exchange/KV.v, Exchange/Index.v, Exchange/Paging.v, Exchange/Commit.v Exchange/GenesisImport.v, Exchange/KeyCoverage.v (reviewed coverage table) + the std-lib translator translate/exchkeys (order / payment / commitment VALUES are structured, not protobuf bytes or coin strings; an address string is its bytes plus one bit for the spelling; the SDK store / prefix-store / iterator semantics and query.Paginate / FilteredPaginate are modelled; the commitment and market-id keys are modelled as a second store next to the order / payment store because their type bytes differ; GetMarketAddress is assumed collision free; which market ids have an account is a set); the Go harness' projection (order = type, market, owner, asset denom+amount, external id; payment = source + spelling, external id, target + spelling, bbb amount; the price denom of an order is used by the generator only; commitment = market, account, coins; market = id + the name tag given at creation; listed orders are compared with GetOrder by protobuf bytes in Go). No axioms. Funds, holds, fees, permissions and the bank transfers of commitment settlements are not modelled here; account removal (keeper API only) is outside the market-id theorem.",
     "technique": "Coq proof (store invariants by induction over histories; pagination by induction over pages) of a Gallina byte-level model + differential correspondence and property checker evaluated in Coq on real-code traces",
     "coq_files": ["Exchange/KV.v", "Exchange/Index.v", "Exchange/Paging.v", "Exchange/Commit.v", "Proofs/KVProofs.v", "Proofs/IndexProofs.v",
-                  "Proofs/PaymentProofs.v", "Proofs/PagingProofs.v", "Proofs/PagingSdkProofs.v", "Proofs/CommitProofs.v", "Proofs/C13Glue.v", "Corr/CorrBase.v", "Corr/C13.v"],
-    "rule": "joint histories of 20-33 operations (the first two create the base markets) over 2-6 markets, 3 owners, asset denoms aaa/aaab/bbb (prefixes of each other on purpose), external ids from a pool of 5 plus empty/100/101-byte ones (a 100-byte order id, a 100-byte payment id and a source holding an empty-id payment next to another one are scripted into every sixth history), payments incl. empty external ids, commitments in 1-2 denoms incl. malformed amounts, market creations with automatic / explicit / already-used ids incl. an explicit id exactly where the automatic counter stands and a foreign account on the next automatic id, an external id given up (changed or cleared, the order then cancelled or not) and taken again by another order of the market through creation and through set-external-id (scripted into every third history, attempted at random elsewhere); a third of the histories is paged after every step; a history (= one case) is non-trivial when it has accepted operations and ends with open orders, payments or commitments; distinct = distinct operation/outcome sequences; the number of distinct paging-session shapes (endpoint, type filter, after bound, direction, mode, size) is reported separately as stats.distinct_session_shapes",
+                  "Proofs/PaymentProofs.v", "Proofs/PagingProofs.v", "Proofs/PagingSdkProofs.v", "Proofs/CommitProofs.v", "Proofs/C13Glue.v",
+                  "Exchange/GenesisImport.v", "Proofs/PagingMaxProofs.v", "Proofs/MarketsPagingProofs.v", "Proofs/RespellProofs.v",
+                  "Proofs/GenesisImportProofs.v", "Proofs/GenesisCommitProofs.v",
+                  "Exchange/KeyTable.v", "Gen/GenExchangeKeys.v", "Exchange/KeyCoverage.v", "Proofs/KeyCoverageProofs.v",
+                  "Corr/CorrBase.v", "Corr/C13.v"],
+    "rule": "joint histories of 22-35 operations (the first two create the base markets) over 2-6 markets, 3 owners, asset denoms aaa/aaab/bbb (prefixes of each other on purpose) plus, per history, three denoms out of Aaa/aaA/AAA (case twins of aaa), an IBC voucher denom ibc/<64 upper-case hex> and its lower-case twin, its 12- and 13-character prefixes, fac/T.k-n1 / Fac/T.k-n1, a 128-character denom and its 127-character prefix (two of the three are siblings: case twins or prefixes of one another; three scripted orders per history land on them; half of all orders and commitments use them), price denoms pricecoin / Pricecoin / ibc/PRICE0F / p1.x-y/Q / a 128-character one, creations with illegal denoms (':' '_' leading digit, 2 and 129 characters); owner, source and target strings of messages and of every query request in lower or UPPER-case bech32 (one request in three), payments created with upper-case Source / Target strings (scripted into every third history: a payment with an upper-case target that is then re-targeted to the same account; into every other third: an upper-case source), accept with the stored or the other spelling, reject-all with one source in both spellings; genesis cases: InitGenesis of 2-3 markets under random ids, 0-8 orders under random pairwise different ids 1..40 in random order, LastOrderId at or above (sometimes below) the largest, 0-4 commitments (one (market, account) possibly twice), 0-5 payments in both spellings (sometimes one payment under both spellings of its source), an unknown market or a doubly carried external id at random, followed by an observation step and 8-12 operations; external ids from a pool of 5 plus empty/100/101-byte ones (a 100-byte order id, a 100-byte payment id and a source holding an empty-id payment next to another one are scripted into every sixth history), payments incl. empty external ids, commitments in 1-2 denoms incl. malformed amounts, market creations with automatic / explicit / already-used ids incl. an explicit id exactly where the automatic counter stands and a foreign account on the next automatic id, an external id given up (changed or cleared, the order then cancelled or not) and taken again by another order of the market through creation and through set-external-id (scripted into every third history, attempted at random elsewhere); a third of the histories is paged after every step; a history (= one case) is non-trivial when it has accepted operations and ends with open orders, payments or commitments; distinct = distinct operation/outcome sequences; the number of distinct paging-session shapes (endpoint, type filter, after bound, direction, mode, size) is reported separately as stats.distinct_session_shapes",
     "assumptions": ["store iteration is ascending bytewise key order and a prefix store shows exactly the keys with that prefix (cosmossdk.io/store), as transcribed in Exchange/KV.v",
                     "histories are shorter than 2^64-1 operations (nextOrderID is uint64 and wraps)",
-                    "page arithmetic does not overflow: entries + limit + 1 < 2^64 for the multi-page theorems; limit = 2^64-1 has its own theorem (C13_max_limit_one_page) for filteredPaginateAfterOrder; the SDK routines wrap there (key-nil requests with the maximum limit on GetAllOrders / payments / commitments are exercised by the harness only)",
+                    "page arithmetic does not overflow: entries + limit + 1 < 2^64 for the multi-page theorems; limit = 2^64-1 has its own theorems: C13_max_limit_one_page (filteredPaginateAfterOrder, every offset), C13_max_limit_sdk_paginate_one_page and C13_max_limit_sdk_filtered_one_page (SDK routines, offset 0; with an offset >= 1 they return an empty page, C13_max_limit_sdk_offset_remark)",
+                    "bech32 address strings have exactly two spellings (all lower case, all upper case); the keeper receives the canonical lower-case string from AccAddress.String()",
+                    "genesis import: the hold module already holds the funds the imported orders, commitments and payments need (the harness places them); no foreign account sits on the address of a genesis market",
                     "fewer than 2^32 markets (nextMarketID is uint32 and wraps); GetMarketAddress (a hash) is collision free on the ids in use; market accounts are never removed (no message does)"],
 }
+
+
+def pre(ctx):
+    """Translator: build translate/exchkeys (std-lib go/parser only), run it on ctx['repo'], render
+    coq/Gen/GenExchangeKeys.v (rewritten only when its content changes): every constant declared in
+    x/exchange/keeper/keys.go with its value, and every byte / string literal a function of that
+    file puts into a key without a named constant.  The obligation C13_key_prefixes_covered
+    (Properties/C13.v: every constant is modelled or listed as out of scope in
+    Exchange/KeyCoverage.v with the same value, no row is stale, the modelled bytes are the ones
+    Exchange/Index.v and Exchange/Commit.v use) then decides."""
+    verif = ctx["verif"]
+    tdir = os.path.join(verif, "translate", "exchkeys")
+    bdir = os.path.join(ctx["build"], "translate")
+    os.makedirs(bdir, exist_ok=True)
+    binp = os.path.join(bdir, "exchkeys")
+    env = dict(ctx["env"], GOFLAGS="-mod=mod", GOPROXY="off", GOSUMDB="off", GOTOOLCHAIN="local", GOWORK="off")
+    p = subprocess.run(["go", "build", "-o", binp, "."], cwd=tdir, env=env,
+                       stdout=subprocess.PIPE, stderr=subprocess.STDOUT, text=True, timeout=600)
+    if p.returncode != 0:
+        return {"error": "exchkeys does not build: " + p.stdout[-1500:]}
+    p = subprocess.run([binp, ctx["repo"]], stdout=subprocess.PIPE, stderr=subprocess.PIPE, text=True, timeout=600)
+    if p.returncode != 0:
+        return {"error": "exchkeys failed on %s: %s" % (ctx["repo"], p.stderr[-1500:])}
+    tag = hashlib.sha256(os.path.realpath(ctx["coq"]).encode()).hexdigest()[:8]
+    jpath = os.path.join(bdir, "exchkeys_%s.json" % tag)
+    open(jpath, "w", encoding="utf-8").write(p.stdout)
+    p = subprocess.run(["python3", os.path.join(tdir, "gen_coq.py"), jpath, ctx["coq"]],
+                       stdout=subprocess.PIPE, stderr=subprocess.PIPE, text=True, timeout=120)
+    if p.returncode != 0:
+        return {"error": "exchkeys/gen_coq.py failed: " + p.stderr[-1500:]}
+    info = json.loads(p.stdout)
+    return {"obligations": 1,
+            "tables": {"gen_exchange_key_consts": info["rows"], "byte_consts": info["byte"],
+                       "string_consts": info["string"], "unrecognised": info["unrecognised_rows"],
+                       "raw_literals": info["raw_literals"]},
+            "rewritten": info["rewritten"], "extract_json": os.path.relpath(jpath, verif)}
